@@ -346,7 +346,7 @@ func (r *Run) pickOrd(from *Thread, fromEnabled, fromLast bool, kind Kind, label
 			tid = from.ID
 		}
 		p := Point{Kind: kind, Thread: tid, Label: label, NAlts: len(en), Chosen: choice,
-			CurEnabled: fromEnabled && !fromLast, Pre: r.pre, Dev: r.dev, Alts: en}
+			CurEnabled: fromEnabled, Pre: r.pre, Dev: r.dev, Alts: en}
 		r.Points = append(r.Points, p)
 		if p.CurEnabled && choice != 0 {
 			r.pre++
@@ -416,7 +416,9 @@ func PointAt(kind Kind, label string) {
 	r.pick(t, true, kind, label)
 }
 
-// Yield lets every other enabled thread go first by default (used for Sleep).
+// Yield lets the next enabled thread go first by default (used for Sleep); any
+// other continuation costs one preemption, which keeps retry loops from blowing up
+// the schedule space.
 func Yield(label string) {
 	t := Cur()
 	if t == nil || t.noPoint > 0 {
